@@ -62,13 +62,15 @@ Lemma element_numeric_law e (s : ws (io dstate)) :
   end.
 Proof.
   intros Hk Ha Hx Hq. unfold do_element.
-  assert (E1 : (match r_assoc (w_r s) with [] => Ok s | _ :: _ =>
-                 if (desc_X (e_id e) =? 31)%N then Ok s else do_assoc DH (e_id e) s end) = Ok s).
-  { destruct Ha as [-> | ->]; [reflexivity|]. destruct (r_assoc (w_r s)); reflexivity. }
+  assert (E1 : elem_assoc DH e s = Ok s).
+  { unfold elem_assoc, elem_assoc_r. destruct Ha as [-> | ->]; [reflexivity|].
+    destruct (r_assoc (w_r s)); reflexivity. }
   rewrite E1. cbn [bind].
-  destruct (N.eqb_spec (desc_X (e_id e)) 33); [contradiction|].
-  destruct (N.eqb_spec (r_qa (w_r s)) QA_INFO_PROCESSING); [contradiction|].
-  cbn [bind]. rewrite Hk. cbv zeta.
+  assert (E2 : elem_qa DH e s = Ok s).
+  { unfold elem_qa, elem_qa_r.
+    destruct (N.eqb_spec (desc_X (e_id e)) 33); [contradiction|].
+    destruct (N.eqb_spec (r_qa (w_r s)) QA_INFO_PROCESSING); [contradiction|reflexivity]. }
+  rewrite E2. cbn [bind]. unfold elem_body, elem_body_r. rewrite Hk. cbv zeta.
   destruct (refval_lookup (e_id e) (r_new_refvals (w_r s))) as [[v|]|] eqn:El.
   - cbn [io_handlers h_numeric_new_refval dd_id]. rewrite El. reflexivity.
   - cbn [io_handlers h_numeric_new_refval dd_id]. rewrite El. reflexivity.
@@ -80,7 +82,7 @@ Lemma op201_law Y body (s : ws (io dstate)) : (Y < 1000)%N ->
   do_operator DH (201000 + Y) body s =
   Ok (upd_r (set_nbits_offset (if (Y =? 0)%N then 0 else Z.of_N Y - 128)%Z) s).
 Proof.
-  intros HY. unfold do_operator.
+  intros HY. unfold do_operator, do_operator_r.
   replace ((201000 + Y) / 1000)%N with 201%N by (first [apply N.div_unique with Y; lia | symmetry; apply N.div_unique with Y; lia]).
   replace ((201000 + Y) mod 1000)%N with Y by (first [apply N.mod_unique with 201%N; lia | symmetry; apply N.mod_unique with 201%N; lia]).
   cbn [N.eqb Pos.eqb]. destruct (N.eqb_spec Y 0); subst; [reflexivity|].
@@ -91,7 +93,7 @@ Lemma op207_law Y body (s : ws (io dstate)) : (0 < Y < 1000)%N ->
   do_operator DH (207000 + Y) body s =
   Ok (upd_r (set_bsr (mkBsr ((10 * Z.of_N Y + 2) / 3) (Z.of_N Y) (10 ^ Z.of_N Y))) s).
 Proof.
-  intros HY. unfold do_operator.
+  intros HY. unfold do_operator, do_operator_r.
   replace ((207000 + Y) / 1000)%N with 207%N by (first [apply N.div_unique with Y; lia | symmetry; apply N.div_unique with Y; lia]).
   replace ((207000 + Y) mod 1000)%N with Y by (first [apply N.mod_unique with 207%N; lia | symmetry; apply N.mod_unique with 207%N; lia]).
   cbn [N.eqb Pos.eqb]. destruct (Z.eqb_spec (Z.of_N Y) 0); [lia|reflexivity].
